@@ -1049,7 +1049,7 @@ class CylindricalDetector(Detector):
             raise ValueError('`param` {} not in the valid range '
                              '{}'.format(param_in, self.params))
 
-        surf = np.empty(param[0].shape + (3,))
+        surf = np.empty(np.broadcast(*param).shape + (3,))
         surf[..., 0] = self.radius * np.cos(param[0])
         surf[..., 1] = self.radius * (-np.sin(param[0]))
         surf[..., 2] = param[1]
@@ -1125,7 +1125,7 @@ class CylindricalDetector(Detector):
             raise ValueError('`param` {} not in the valid range '
                              '{}'.format(param_in, self.params))
 
-        deriv_phi = np.empty(param[0].shape + (3,))
+        deriv_phi = np.empty(np.broadcast(*param).shape + (3,))
         deriv_phi[..., 0] = -np.sin(param[0])
         deriv_phi[..., 1] = -np.cos(param[0])
         deriv_phi[..., 2] = 0
@@ -1311,7 +1311,7 @@ class SphericalDetector(Detector):
             raise ValueError('`param` {} not in the valid range '
                              '{}'.format(param_in, self.params))
 
-        surf = np.empty(param[0].shape + (3,))
+        surf = np.empty(np.broadcast(*param).shape + (3,))
         surf[..., 0] = np.cos(param[0]) * np.cos(param[1])
         surf[..., 1] = -np.sin(param[0]) * np.cos(param[1])
         surf[..., 2] = np.sin(param[1])
@@ -1389,12 +1389,12 @@ class SphericalDetector(Detector):
             raise ValueError('`param` {} not in the valid range '
                              '{}'.format(param_in, self.params))
 
-        deriv_phi = np.empty(param[0].shape + (3,))
+        deriv_phi = np.empty(np.broadcast(*param).shape + (3,))
         deriv_phi[..., 0] = -np.sin(param[0]) * np.cos(param[1])
         deriv_phi[..., 1] = -np.cos(param[0]) * np.cos(param[1])
         deriv_phi[..., 2] = 0
         deriv_phi *= self.radius
-        deriv_theta = np.empty(param[0].shape + (3,))
+        deriv_theta = np.empty(np.broadcast(*param).shape + (3,))
         deriv_theta[..., 0] = -np.cos(param[0]) * np.sin(param[1])
         deriv_theta[..., 1] = np.sin(param[0]) * np.sin(param[1])
         deriv_theta[..., 2] = np.cos(param[1])
